@@ -102,7 +102,10 @@ func (r *Report) SortWeighted() {
 		n.Value.Weight = -total
 	})
 	r.weights.Sort(func(n1, n2 *Node) compare.Order {
-		return compare.Ordered(n1.Value.Weight, n2.Value.Weight)
+		if o := compare.Ordered(n1.Value.Weight, n2.Value.Weight); o != compare.Equal {
+			return o
+		}
+		return multimap.SortAlpha(n1, n2)
 	})
 }
 
